@@ -1,9 +1,7 @@
 //! Checks of the enc2 group: C35.
 mod props;
-mod explore;
 
 fn main() {
-    if std::env::var("C35_EXPLORE").is_ok() { explore::run(); return; }
     let ctx = engine::Ctx::from_args();
     match ctx.id.as_str() {
         "C35" => props::c35::run(ctx),
